@@ -60,6 +60,16 @@ def run(ck, F):
     for f in sorted(fns, key=lambda f: f['id']):
         tables.update(K.factory(f))
     K.finish_cover()
+    R_sp = ck.rule('C04.spelling-by-content', 'a table keyed by a spelling that is handed in as a String compares the characters, not the '
+                   'address of the String: a String with the same characters from another pool (another Lexicon, a free-standing String) '
+                   'denotes the same spelling and must find the same node', floor=2)
+    flagged = {x[0] for x in K.string_identity}
+    for inst, f, pi, ra, rb, loc, cmp_fid in K.string_identity:
+        ck.fail(R_sp, inst, f'{f["id"]}: the String parameter `{f["params"][pi]["name"] or pi}` is compared by address ({ra} <=> {rb}) in '
+                f'{contracts.short(contracts.fn_qname(cmp_fid))}: equal spellings held in different String objects get different nodes', loc=loc, fn=cmp_fid)
+    for inst in sorted(K.tables_seen):
+        if inst not in flagged and 'String' in inst:
+            ck.ok(R_sp, inst)
     K.finish_partial(())
     for r in (K.R_diag, K.R_cover, K.R_lex):
         ck.rules[r]['floor'] = 13
